@@ -390,6 +390,34 @@ fn docs_url_probe(rep: &mut Report, thorough: bool) {
 
 /// Locality with traits and callbacks in play (Kotlin and C generate code for traits): adding a type nothing refers
 /// to — in the same bridge module, in one of its own, before or after the others — leaves every other file as it was.
+
+/// Two bridge modules may declare types of the same name when namespaces / renames (and `abi_rename`) keep the
+/// generated names apart.  Adding such a module — nothing refers to it, it refers to nothing — must leave every file
+/// of the first module as it was: a reference by name must resolve to the type of its own module.
+fn same_name_locality_probe(rep: &mut Report) {
+    let inventory = "#[diplomat::bridge]\n#[diplomat::abi_rename = \"inventory_{0}\"]\n#[diplomat::attr(auto, namespace = \"inventory\")]\n#[diplomat::attr(not(supports = namespacing), rename = \"Inventory{0}\")]\npub mod inventory {\n    #[diplomat::opaque]\n    pub struct Item(pub u32);\n    impl Item {\n        pub fn create(weight: u32) -> Box<Item> { unimplemented!() }\n        pub fn weight(&self) -> u32 { unimplemented!() }\n    }\n    pub enum Kind { Small, Large }\n    pub struct Label { pub id: u32, pub kind: Kind }\n    #[diplomat::opaque]\n    pub struct Shelf(pub u32);\n    impl Shelf {\n        pub fn put(&mut self, item: &Item, label: Label) { unimplemented!() }\n        pub fn classify(&self, item: &Item) -> Kind { unimplemented!() }\n    }\n}\n";
+    let shop = "#[diplomat::bridge]\n#[diplomat::abi_rename = \"shop_{0}\"]\n#[diplomat::attr(auto, namespace = \"shop\")]\n#[diplomat::attr(not(supports = namespacing), rename = \"Shop{0}\")]\npub mod shop {\n    #[diplomat::opaque]\n    pub struct Item(pub u64, pub u64);\n    impl Item {\n        pub fn price(&self) -> u64 { unimplemented!() }\n    }\n    pub enum Kind { Food, Tool, Toy }\n    pub struct Label { pub text_len: u64, pub kind: Kind, pub on_sale: bool }\n}\n";
+    for target in ["cpp", "js", "dart"] {
+        for (what, src) in [("after", format!("{inventory}{shop}")), ("before", format!("{shop}{inventory}"))] {
+            let (a, b) = (tool::run_backend(inventory, target), tool::run_backend(&src, target));
+            rep.oracle_runs += 1;
+            rep.count("probe:same-name-locality");
+            if !a.ok() || !b.ok() { rep.count(&format!("probe:same-name-locality:{target}:skipped")); continue; }
+            for (name, text) in &a.files {
+                if is_aggregate(target, name) { continue; }
+                match b.files.get(name) {
+                    Some(t) if t == text => {}
+                    Some(t) => {
+                        let (x, y) = text.lines().zip(t.lines()).find(|(p, q)| p != q).map(|(p, q)| (p.trim().to_string(), q.trim().to_string())).unwrap_or_default();
+                        rep.oracle_fail(&format!("(c14 probe same-name-locality {target} {what})"), "adding an unrelated module that declares types of the same names changed a file of the first module", json!({"backend": target, "file": name, "before_line": x, "after_line": y}));
+                    }
+                    None => rep.oracle_fail(&format!("(c14 probe same-name-locality {target} {what})"), "adding an unrelated module removed a file of the first module", json!({"backend": target, "file": name})),
+                }
+            }
+        }
+    }
+}
+
 fn trait_locality_probe(rep: &mut Report) {
     // once with enums (generated after the other types: what they inherit) and once without (what the traits inherit)
     for with_enums in [false, true] {
@@ -725,5 +753,6 @@ pub fn main(args: &[String]) {
     }
     docs_url_probe(&mut rep, thorough);
     trait_locality_probe(&mut rep);
+    same_name_locality_probe(&mut rep);
     rep.print();
 }
